@@ -23,6 +23,16 @@ def regenerate(chk):
     tr_c02_gvn.main()
     tr_c02_peephole.main()
     problems += tr_c02_x86pat.main() or []
+    # rows / constructs that were not in their literal canonical form and were tied by an SMT equivalence (all operand
+    # values, QF_BV) resp. symbolic execution + SMT; operand values on which an extracted row differs from the canonical one
+    import tr_c02_smt
+    smt = dict(notes={}, hints={})
+    for key, path in (('notes', tr_c02_smt.NOTES), ('hints', tr_c02_smt.HINTS)):
+        try:
+            smt[key] = json.load(open(path))
+        except (OSError, ValueError):
+            pass
+    chk.smt = smt
     return ops, problems
 
 
@@ -502,6 +512,20 @@ def run(chk):
     if os.path.exists(corpus):
         lines += [l.strip() for l in open(corpus) if l.strip() and not l.startswith('#')]
     lines += generate(chk, infos, quick)
+    tied = [n for k in ('interp', 'gvn', 'peephole') for n in chk.smt['notes'].get(k, [])]
+    if tied:
+        chk.cov['smt_tied'] = tied
+        chk.cov['trusted_base'].append('z3 4.8.12 / cvc5 1.0.3 (QF_BV) and the encoder tools/tr_c02_smt.py (+ the symbolic executor tools/tr_c02_peval.py): '
+                                       'these constructs of the checked tree are not in their canonical text and were shown equal to the canonical '
+                                       'row for all operand values by the solver, the theorems are about the canonical row: ' + '; '.join(tied))
+        chk.log('tied by SMT equivalence instead of syntactically: ' + '; '.join(tied))
+    byname_ = {i.name: i for i in infos}
+    for which, shape in (('interp', 'r'), ('gvn', 'i')):      # the solver's model: operands on which a row differs from the canonical one
+        for h in chk.smt['hints'].get(which, []):
+            info = byname_.get(h['op'])
+            if info is not None and G.testable(info):
+                lines.append(G.gen_case(info, chk.rng('hint'), 'h%d' % len(lines), vals=[v & G.M64 for v in h['args'][:len(info.args)]],
+                                        shapes=[shape] * len(info.args), dst='r'))
     chk.cov['rule'] = ('one-instruction functions built through the MIR API (operand shapes reg/imm/mem with base/index/scale/disp, '
                       'dst==src, memory destinations), run by MIR_interp and MIR_gen -O0..-O3, compared with the extracted DocSpec on the '
                       'defined bits; distinct by (opcode, operands, shape); cases DocSpec leaves undefined are not run')
